@@ -7,8 +7,8 @@ REPO="${VERIF_REPO:-/repo}"
 DRV=/verif/factdump/target/release/factdump
 [ -x "$DRV" ] || { echo "factdump driver not built (run setup_cmd)" >&2; exit 2; }
 case "$CFG" in
-  ws)   FLAGS="-p retrofire-core -p retrofire-geom -F retrofire-core/std,retrofire-core/mm" ;;
-  std)  FLAGS="-p retrofire-core -p retrofire-geom -F retrofire-core/std" ;;
+  ws)   FLAGS="-p retrofire-core -p retrofire-geom -F retrofire-core/std,retrofire-core/mm,retrofire-geom/std" ;;
+  std)  FLAGS="-p retrofire-core -p retrofire-geom -F retrofire-core/std,retrofire-geom/std" ;;
   libm) FLAGS="-p retrofire-core -F retrofire-core/libm" ;;
   mm)   FLAGS="-p retrofire-core -F retrofire-core/mm" ;;
   none) FLAGS="-p retrofire-core" ;;
